@@ -53,9 +53,11 @@ theorem Atom.neg_neg (a : Atom) : a.neg.neg = a := by
 
 theorem Val.neg_neg (v : Val) : v.neg.neg = v := by
   have h : (Atom.neg ∘ Atom.neg) = id := by funext x; simp [Atom.neg_neg]
+  have ho : (Option.map Atom.neg ∘ Option.map Atom.neg) = id := by
+    funext x; cases x <;> simp [Atom.neg_neg]
   cases v with
   | atom a => simp [Val.neg, Atom.neg_neg]
-  | tup xs => simp [Val.neg, List.map_reverse, List.map_map, h]
+  | tup xs => simp [Val.neg, List.map_reverse, List.map_map, ho]
   | list xs => simp [Val.neg, List.map_map, h]
 
 instance : LawfulNegVal Val where
